@@ -217,9 +217,9 @@ class Globals:
         self.nicknames_and_tables = state["nicknames_and_tables"]
         self.id_manager = hydrate(IdManager, state["id_manager"])
 
-        self.intertable_dependencies = OrderedSet(
-            Dependency(*dep) for dep in getattr(state, "intertable_dependencies", [])
-        )
+        self.intertable_dependencies = OrderedSet()
+        for dep in state.get("intertable_dependencies", []):
+            self.intertable_dependencies.add(Dependency(**dep))
 
         self.today = state["today"]
         persistent_objects_by_table = state.get("persistent_objects_by_table")
